@@ -77,6 +77,16 @@ def check(run, driver):
         run.case("kde", [N, dx, dy, dz, str(bw), kind, float(W[0, 0])], N >= 10, sample={k_: case[k_] for k_ in ("N", "dx", "bandwidth", "kind")} | {"impl": val})
         meta.append(("kde", case, val))
         reqs.append({"op": "kde", "rule": bw if isinstance(bw, str) else "numeric", **({"h": {"b": f2b(bw)}} if not isinstance(bw, str) else {}), **args})
+    # ---- history: same buffers refilled in place between two calls (kNN and KDE, with and without Z)
+    from common import reuse_check
+    for it in range(16 if thorough else 6):
+        N = int(rng.integers(10, 30)); dz = it % 2
+        A1, A2 = rng.standard_normal((N, 2 + dz)), rng.standard_normal((N, 2 + dz))
+        sp = lambda W: (W[:, :1], W[:, 1:2], W[:, 2:] if dz else None)
+        run.case("history", [N, dz, float(A1[0, 0])], True)
+        kk = int(rng.integers(1, 5))
+        reuse_check(run, "kNN estimator", lambda x, y, z: float(knn_conditional_mutual_information(x, y, z, metric="euclidean", k=kk)), sp(A1), sp(A2), {"estimator": "knn", "clause": "purity"})
+        reuse_check(run, "KDE estimator", lambda x, y, z: float(kde_conditional_mutual_information(x, y, z, bandwidth="scott")), sp(A1), sp(A2), {"estimator": "kde", "clause": "purity"})
     worst = {"knn": 0.0, "kde": 0.0}
     for (kind, case, val), r in zip(meta, driver.run_sharded(reqs, shards=16)):
         if "ok" not in r:
